@@ -14,5 +14,8 @@ CONSTANTS
   CoolDown <- C_CoolDown
   AttemptMaxBlocks <- C_AttemptMaxBlocks
   BlockSeconds = 12
+  Interlude <- C_Interlude
+  MaxMessages = 2
+  LoopBoundToCaller = TRUE
   Starts <- QuickStarts
-INVARIANTS TypeOK NoUnderflow SigningStartsAfterStart SigningEndsBeforeMargin LoopFits AttemptWindow PostEndsBeforeExpiry
+INVARIANTS TypeOK NoUnderflow SigningStartsAfterStart SigningEndsBeforeMargin LoopFits NoAnnouncementAfterDeadline SignReturnsByDeadline AttemptWindow PostEndsBeforeExpiry
